@@ -53,6 +53,11 @@ Observer == /\ Cur.e = "end" /\ Cur.role = "observer"
             /\ Chk("observer did not complete", Cur.status = "COMPLETE")
             /\ Chk("observer trace differs from its trace on a fresh interpreter", Cur.events = TR[tix].observer_expected)
             /\ Chk("call depth not 0 after the observer completed", Cur.depth = 0)
+            \* the observer's module exports are its own: nothing exported by a dead run shows up (histories that record exports)
+            /\ ("observer_exports" \in DOMAIN TR[tix]) => Chk("exports of an earlier run reach the observer's export table", Cur.exports = TR[tix].observer_exports)
+            \* bookkeeping of suspended contexts / orders is empty again (ledger: 6 pending orders, 7 cancelled, 8 responses, 9 suspended-for-order, 10 waiting contexts)
+            /\ (Len(Cur.ledger) >= 10) => Chk("order / await bookkeeping not empty after the observer completed",
+                                                Cur.ledger[6] = 0 /\ Cur.ledger[7] = 0 /\ Cur.ledger[8] = 0 /\ Cur.ledger[9] = 0 /\ Cur.ledger[10] = 0)
             /\ phase' = "idle" /\ depth' = Cur.depth /\ UNCHANGED <<lives, nruns>>
 
 Collect == /\ Cur.e = "collect"
